@@ -171,21 +171,21 @@ CHECKS = {
 
 # additions of the third session, appended to the level text (and technique where it changed)
 ADD_TEXT = {
-    "C01": " The generator also builds existential packages (abstract data types built, opened, used), comatch redexes, destructuring binds and tuple literals regrouped by patterns; the catalogue has cases for every soundness defect reported so far (duplicate constructors, value-level binders, synthesizing fix, shared forall witnesses).",
+    "C01": " The generator also builds existential packages (abstract data types built, opened, used), comatch redexes, destructuring binds and tuple literals regrouped by patterns; the catalogue has cases for every soundness defect reported so far (duplicate constructors, value-level binders, synthesizing fix, shared forall witnesses). A dropped-arms generator drops one arm at every position of 2-20 alternatives (data, nested data, codata), eliminates exactly the dropped alternative, and keeps an accepted control per case.",
     "C02": " Styles also print abstractions as copattern clauses; programs contain existential packages, comatch redexes and regrouped tuple bindings.",
-    "C03": " Error injection includes three definite existential-package errors (wrong witness, escaping witness, abstract type used at its representation).",
+    "C03": " Error injection includes three definite existential-package errors (wrong witness, escaping witness, abstract type used at its representation). An escapes generator opens a package at a random position of a random tuple pattern (value-level let, abstraction binder): the escaping variant must be rejected, the well-scoped let variant accepted and run.",
     "C04": " A small family of matches over types with an uninhabited component documents the open finding that the checker treats every type as inhabited.",
     "C05": " Float32 literals are judged against the decimal rounded once to Float32 (not through Float64): literals beyond Float64 and literals a hair off a Float32 midpoint are fixed cases.",
     "C06": " Random handle histories (open / read / write / flush / close over several files, every capability ever obtained reused at random) are checked against a model: closed capabilities stay closed whatever is opened later, open ones never share state, files hold the modelled bytes at the quiescent point.",
     "C07": " A further strategy names annotated binders like a type alias used only in their own annotation, and 21 scope-extent probes require an Unbound error for occurrences outside the scope the rules give their would-be binder. A generator writes one name several times in ONE pattern (six binding forms, random pattern shapes): the rightmost component wins, or a block reports the duplicate; never another occurrence.",
     "C08": " Blocks with 2-4 parameters annotated through alias chains defined in the same block are printed under many placements of the definitions; acceptance and the printed argument-to-parameter mapping must not depend on the placement.",
     "C09": " Companions may be symbolic links to a signature in another directory (with its own relative import and a decoy next to the link), also shared by two implementations.",
-    "C10": " A trivia family decorates readable programs with hostile lexical trivia (multi-line comments whose continuation lines start with Unicode white space, tabs, form feeds, CR, BOM, missing final newline); a witness family re-runs every input that ever crashed the front end.",
+    "C10": " A trivia family decorates readable programs with hostile lexical trivia (multi-line comments whose continuation lines start with Unicode white space, tabs, form feeds, CR, BOM, missing final newline); a witness family re-runs every input that ever crashed the front end. A defgraphs generator writes random graphs of sealed and transparent type definitions (chains, chains into cycles, diamonds, applications of a type function) with judgments that look through them.",
     "C11": " A block comment still open at the end of the input counts as an irregular token, not as a comment.",
-    "C12": " Workload families added: verbatim regions in context, text blocks attached to literal / doc annotations, strings with raw control and format characters and raw line breaks, nested directives, vertical re-breaking, redundant parentheses with a break inside; the CLI leg also feeds token-mutated unparseable files.",
+    "C12": " Workload families added: verbatim regions in context, text blocks attached to literal / doc annotations, strings with raw control and format characters and raw line breaks, nested directives, vertical re-breaking, redundant parentheses with a break inside; the CLI leg also feeds token-mutated unparseable files. The text of `--|` lines is compared character for character (a literal splice is invisible in the desugared term); multi-line block comments opening after wide characters are part of the workload.",
     "C13": " Verbatim regions (extent from the parser's spans) must occur byte for byte in the output; comment payloads include multi-line, non-ASCII and delimiter look-alike content. Format directives that do not validate (misspelt, repeated, wrong argument shapes) surround payloads with comments: an inert directive must lose nothing.",
-    "C14": " Further canonical legs compare a source with the same source plus one redundant single-line parenthesis pair (where the policy drops them and the pair is not printed as a multi-line group) and with one pun spelling toggled, each variant confirmed to desugar identically. A CLI leg names several files in one `fmt --check` invocation and compares the listing and the exit status with the single-file verdicts.",
-    "C16": " Programs with several duplicate definitions, unbound names or missing arms at once, and random ill-formed grammar terms, target the order in which ambiguous diagnostics are chosen. Blocks with several recursive components through parameters are included.",
+    "C14": " Further canonical legs compare a source with the same source plus one redundant single-line parenthesis pair (where the policy drops them and the pair is not printed as a multi-line group) and with one pun spelling toggled, each variant confirmed to desugar identically. A CLI leg names several files in one `fmt --check` invocation and compares the listing and the exit status with the single-file verdicts. Violations are tagged by experiments on the input (the same source without groups around single atoms formats to a fixed point; the added pair of the parenthesis leg sits around an atom) and by the input's hash, which is how the open findings of the thorough tier are keyed.",
+    "C16": " Programs with several duplicate definitions, unbound names or missing arms at once, and random ill-formed grammar terms, target the order in which ambiguous diagnostics are chosen. Blocks with several recursive components through parameters are included. Accepted programs with several tuple variables that are only taken apart put several candidates of one back-end optimisation into one build.",
     "C17": " The quick tier also runs the allocator-identity race under Miri at four scheduler seeds. A language-server leg drives the repository's cajun binary over stdio with seeded open / change / close / reopen histories on several documents (every text identifies itself by a unique symbol and a warning on a unique line; all messages stamped from one logical clock; pauses aimed at fractions of a measured analysis): answers never come from contents replaced before the request was sent, diagnostics never describe a text older than their version label, at quiescence answers and the last publication are those of the current contents (also for a root importing another open document), and the server neither dies nor stops answering. A pending-slot leg calls check_resolved with ten distinguishable programs on one long-lived session and on concurrent snapshots against fresh sessions.",
     "C18": " Generated programs include comatch redexes inside thunks / continuations / fix bodies and existential packages. A shapes generator runs 24 binder / scrutinee / arm shapes over the repository's standard library (each accepted and run by the interpreter first) through the same monitors; matches with overlapping arms are generated. A fixture-mutants generator applies token-level changes to the repository's compile and exec fixtures (arms swapped, duplicated, turned into catch-alls, literals and identifiers replaced, uses wrapped into value-level lets), installs each as an overlay at the fixture's own path, and lowers every mutant that check still accepts as an executable.",
     "C19": " Generated programs include destructuring binds that return one component, comatch redexes and existential packages. The lowering is run up to the first-order program only, so that matches the assembly stage refuses (nested patterns, catch-all arms, overlapping arms) are compared too; a layouts generator builds a product on one side of a type abstraction and takes it apart on the other (open finding: static product layout under polymorphism).",
